@@ -49,7 +49,7 @@ def run(ctx):
     for _ in range(n_iter):
         R.instance("LOOP-E.iter", "iter")
     R.floor("LOOP-E.pump", 4)
-    R.floor("LOOP-E.iter", 5)
+    R.floor("LOOP-E.iter", 1)
     # recursion
     cycles = lib_loop.recursion(cg, set(reach))
     R.instance("REC", "no recursion among %d reachable functions" % len(reach))
